@@ -838,7 +838,8 @@ func VerifyFunc(p *Program, fn *ssa.Function, prop string) (res *FuncResult) {
 			}
 			sort.Strings(names)
 			for _, h := range names {
-				if modset[h] || strings.HasPrefix(h, "lghost:") || h == "ghost:work" || (h == "ghost:statever" && spec.Kind == "mutating") {
+				// ghost:objtype is only ever written at the id of an object allocated by this activation (allocObj)
+				if modset[h] || strings.HasPrefix(h, "lghost:") || h == "ghost:work" || h == "ghost:objtype" || (h == "ghost:statever" && spec.Kind == "mutating") {
 					continue
 				}
 				cur := out.Heaps[h]
